@@ -562,11 +562,13 @@ func TestVerifRQWindow(t *testing.T) {
 }
 
 // rqWinReplay replays scripted association-level scenarios.  Lines:
-//   assoc <buffer> <idata 0|1> <peerInitialTSN>      start a bare association
-//   data <tsn> <si> <ssn-or-mid> <fsn> <B> <E> <U> <len>   inbound DATA / I-DATA chunk
-//   zdata <count> <firstTSN> <si> <ssn>              <count> DATA chunks (B+E) with an empty payload, consecutive TSNs
-//   reset <si> <senderLastTSN>                       inbound RECONFIG outgoing-SSN-reset request
-//   read <si> <buflen>                               application read on the newest stream object of that id (if readable)
+//
+//	assoc <buffer> <idata 0|1> <peerInitialTSN>      start a bare association
+//	data <tsn> <si> <ssn-or-mid> <fsn> <B> <E> <U> <len>   inbound DATA / I-DATA chunk
+//	zdata <count> <firstTSN> <si> <ssn>              <count> DATA chunks (B+E) with an empty payload, consecutive TSNs
+//	reset <si> <senderLastTSN>                       inbound RECONFIG outgoing-SSN-reset request
+//	read <si> <buflen>                               application read on the newest stream object of that id (if readable)
+//
 // After every line the advertised window is compared with buffer - bytes held by every stream object handed to the
 // application, and the number of held chunks with buffer + TSN window.
 func rqWinReplay(path string, fail func(key, format string, a ...any)) {
